@@ -404,6 +404,64 @@ func (e *lcEnv) probeHTTP(host, path string, wait time.Duration) (servedBy strin
 	return servedBy, status, nil
 }
 
+// probeHTTPUser is probeHTTP with a Basic Authorization header naming user (the user http routes may be restricted to).
+func (e *lcEnv) probeHTTPUser(host, path, user string, wait time.Duration) (servedBy string, status int, err error) {
+	ip := fmt.Sprintf("10.0.3.%d", 1+e.userIP%250)
+	e.userIP++
+	conn, err := simnet.DialFrom(ip, fmt.Sprintf("10.0.0.1:%d", e.httpPort), 10*time.Second)
+	if err != nil {
+		return "", 0, err
+	}
+	defer conn.Close()
+	fmt.Fprintf(conn, "GET %s HTTP/1.1\r\nHost: %s\r\nAuthorization: %s\r\nConnection: close\r\n\r\n", path, host, basic(user, "x"))
+	conn.SetReadDeadline(time.Now().Add(wait))
+	br := bufio.NewReader(conn)
+	line, err := br.ReadString('\n')
+	if err != nil {
+		return "", 0, err
+	}
+	fmt.Sscanf(line, "HTTP/1.1 %d", &status)
+	for {
+		l, err := br.ReadString('\n')
+		if err != nil || l == "\r\n" {
+			break
+		}
+		if strings.HasPrefix(strings.ToLower(l), "x-served-by:") {
+			servedBy = strings.TrimSpace(l[len("x-served-by:"):])
+		}
+	}
+	return servedBy, status, nil
+}
+
+// probeCONNECT sends CONNECT host:443 to the tcpmux port (optionally naming a user) and returns the identity
+// line of the backend that answered.
+func (e *lcEnv) probeCONNECT(host, user string, wait time.Duration) (servedBy string, err error) {
+	ip := fmt.Sprintf("10.0.3.%d", 1+e.userIP%250)
+	e.userIP++
+	conn, err := simnet.DialFrom(ip, fmt.Sprintf("10.0.0.1:%d", e.muxPort), 10*time.Second)
+	if err != nil {
+		return "", err
+	}
+	defer conn.Close()
+	h := ""
+	if user != "" {
+		h = "Proxy-Authorization: " + basic(user, "x") + "\r\n"
+	}
+	fmt.Fprintf(conn, "CONNECT %s:443 HTTP/1.1\r\nHost: %s:443\r\n%s\r\n", host, host, h)
+	conn.SetReadDeadline(time.Now().Add(wait))
+	br := bufio.NewReader(conn)
+	for i := 0; i < 40; i++ {
+		line, err := br.ReadString('\n')
+		if strings.HasPrefix(line, "ID ") {
+			return strings.TrimSpace(line[3:]), nil
+		}
+		if err != nil {
+			return "", err
+		}
+	}
+	return "", fmt.Errorf("no identity line")
+}
+
 // frpsTCPPorts returns the ports frps listens on at its address, minus the fixed service ports.
 func (e *lcEnv) frpsTCPPorts() map[int]bool {
 	out := map[int]bool{}
